@@ -604,7 +604,22 @@ def r6_depth(ck, F):
             c_ = checked(inner)
             if c_ and c_[0] == "Sub" and const_val(c_[2]) == 1 and is_call(c_[1], "Vec::<T, A>::len") and is_self_field(c_[1].strip().a[0], "index_block_writers"):
                 ok = True
-        ck.ob(R, "trailer-levels-narrowed-last", ok, f"Metadata.index_levels := {why} (expected (index_block_writers.len() - 1) as u8: subtract, then narrow)", b, s)
+        if not ok:
+            # the level count kept beside the vector: it must be the very value the vector's length was derived from
+            # (the builder's index_levels, whose setter and default are its only origins)
+            from .origin import Tracer
+            T = Tracer(F, stop_at=[A("writer_builder") + "::index_levels"])
+            ot = T.origins(b, e)
+            vec_src = set()
+            for b2, s2, rv2 in aggregates(F, A("writer_struct")):
+                ve = agg_field_expr(b2, s2, rv2, "index_block_writers")
+                for x in ve.walk():
+                    if x.k == "field" and x.x["name"] == "index_levels":
+                        vec_src |= T.origins(b2, x)
+            want = "param:" + A("writer_builder") + "::index_levels#"
+            ok = bool(ot) and ot == vec_src and any(o.startswith(want) for o in ot) and all(o.startswith(want) or o.startswith("const:") for o in ot)
+            why = f"{e.show()} with origins {sorted(ot)}"
+        ck.ob(R, "trailer-levels-narrowed-last", ok, f"Metadata.index_levels := {why} (expected (index_block_writers.len() - 1) as u8 — subtract, then narrow — or the builder's level count the vector length was derived from)", b, s)
     stores = field_stores(F, A("writer_struct"), "index_block_writers")
     ck.exact(R, "stores replacing Writer.index_block_writers", len(stores), 0, F.config)
     # nothing pushes to / pops from the vector of index writers
